@@ -680,7 +680,34 @@ func (r *Run) c04Enabled(s *mateShape) {
 		}
 		nSites++
 		if !IsConstBool(stx.Val, false) {
-			r.Bad(s.name+".enabled.value", p.Pos(stx.Pos()), "a computed value is stored into IsEnabled")
+			// A computed flag (`x.IsEnabled = a && (b || c)` instead of `if !a || !b && !c { x.IsEnabled = false }`): decided
+			// path by path over the region. On each path the stored value resolves (through the phis of the && / ||) to a
+			// constant, to the enabled flag of one of the two matched parent genes, or to some other test; the claim is the
+			// one made for a constant `false`: wherever the value can be false, a matched parent gene is disabled.
+			if !(inRegion[stx.Block()] && stx.Block() != stop) || !c04IsBool(stx.Val) {
+				r.Bad(s.name+".enabled.value", p.Pos(stx.Pos()), "a computed value is stored into IsEnabled")
+				continue
+			}
+			ok := true
+			var wit []string
+			for _, ip := range paths {
+				if !ip.OnPath(stx) || ip.End != "stop" {
+					continue
+				}
+				v := ip.ResolveAt(stx.Val)
+				if IsConstBool(v, true) || testedDisabled(ip) {
+					continue
+				}
+				// the value is itself the enabled flag of a matched parent gene: false means that gene is disabled
+				if g1, g2, rel := s.matchedPair(ip.Conds); rel == "==" {
+					if vt := tm.Of(v); fieldChainOn(vt, g1, "IsEnabled") || fieldChainOn(vt, g2, "IsEnabled") {
+						continue
+					}
+				}
+				ok = false
+				wit = append(ip.Describe(p), "the value stored on this path is "+tm.Of(v).String())
+			}
+			r.Check(ok, s.name+".enabled.disable", p.Pos(stx.Pos()), "the computed flag can be false only when a matched parent gene is disabled", "a child gene can be disabled although both matched parent genes are enabled (or the gene is not a matched one): the value stored into IsEnabled can be false on a path that did not find a matched parent gene disabled", wit...)
 			continue
 		}
 		if inRegion[stx.Block()] && stx.Block() != stop {
@@ -721,7 +748,19 @@ func (r *Run) c04Enabled(s *mateShape) {
 					ok, wit = false, ip.Describe(p)
 				}
 			default:
-				ok, wit = false, append(ip.Describe(p), "the flag's value on this path is "+tm.Of(v).String()+": it survives from an earlier step")
+				// a computed request (`disable = !a || !b && c`): whatever it evaluates to, it can be true only on a path that
+				// found a matched parent gene disabled; or it is itself `!gene.IsEnabled` of a matched parent gene
+				if testedDisabled(ip) {
+					continue
+				}
+				if base, neg := c04StripNot(v); neg {
+					if g1, g2, rel := s.matchedPair(ip.Conds); rel == "==" {
+						if vt := tm.Of(base); fieldChainOn(vt, g1, "IsEnabled") || fieldChainOn(vt, g2, "IsEnabled") {
+							continue
+						}
+					}
+				}
+				ok, wit = false, append(ip.Describe(p), "the flag's value on this path is "+tm.Of(v).String()+": it is not decided by a test of a matched parent gene in this step (it may survive from an earlier step)")
 			}
 		}
 		r.Check(ok, s.name+".enabled.disable", p.Pos(stx.Pos()), "the disable request is raised only in a step whose matched parent gene is disabled and never carried into the next step",
@@ -809,6 +848,18 @@ func c04EvalFlagExpr(tm *Termer, ip *IterPath, v ssa.Value, a map[string]bool, d
 	return false, false
 }
 
+// c04StripNot removes leading boolean negations: the value underneath and whether their number is odd.
+func c04StripNot(v ssa.Value) (ssa.Value, bool) {
+	neg := false
+	for {
+		u, ok := v.(*ssa.UnOp)
+		if !ok || u.Op != token.NOT {
+			return v, neg
+		}
+		v, neg = u.X, !neg
+	}
+}
+
 func c04IsBool(v ssa.Value) bool {
 	b, ok := v.Type().Underlying().(*types.Basic)
 	return ok && b.Kind() == types.Bool
@@ -846,6 +897,37 @@ func (r *Run) c04StepTable(s *mateShape) {
 			}
 		}
 	})
+	if pb == nil {
+		// `skip = p1better` / `skip = !p1better` instead of `if p1better { skip = true }`: the flag is not branched on but
+		// flows (possibly negated) into the skip flag tested before the conflict scan
+		cands := map[*ssa.Phi]bool{}
+		seen := map[ssa.Value]bool{}
+		var visit func(v ssa.Value)
+		visit = func(v ssa.Value) {
+			v, _ = c04StripNot(v)
+			if seen[v] {
+				return
+			}
+			seen[v] = true
+			ph, ok := v.(*ssa.Phi)
+			if !ok || !c04IsBool(ph) {
+				return
+			}
+			if s.walk.Blocks[ph.Block()] {
+				for _, e := range ph.Edges {
+					visit(e)
+				}
+			} else if ph.Block().Dominates(s.walk.Header) {
+				cands[ph] = true
+			}
+		}
+		visit(s.skip1)
+		if len(cands) == 1 {
+			for ph := range cands {
+				pb = ph
+			}
+		}
+	}
 	if pb == nil {
 		r.Bad(s.name+".p1better", p.Pos(s.fn.Pos()), "no flag computed before the walk decides which parent's unmatched genes are kept")
 		return
@@ -1032,42 +1114,59 @@ func (r *Run) c04StepTable(s *mateShape) {
 		a1, a2 := adv(n1, i1), adv(n2, i2)
 		who, idx := s.parentGene(chosen)
 		isAvg := s.avgGene != nil && chosen == s.avgGene
-		wantSkip := 0 // 1 true, -1 false
-		var okChoice bool
-		var wantA1, wantA2 int
-		switch kind {
-		case "excess2", "disjoint2":
-			okChoice = who == 2 && idx == ssa.Value(i2)
-			wantA1, wantA2 = 0, 1
-			wantSkip = pbv
-		case "excess1", "disjoint1":
-			okChoice = who == 1 && idx == ssa.Value(i1)
-			wantA1, wantA2 = 1, 0
-			wantSkip = -pbv
-		case "match":
-			okChoice = isAvg || (who == 1 && idx == ssa.Value(i1)) || (who == 2 && idx == ssa.Value(i2))
-			wantA1, wantA2 = 1, 1
-			wantSkip = -1
+		// The skip flag at the end of the path is a constant (`if p1better { skip = true }`: the path branched on the
+		// fitter-parent flag) or the flag itself, possibly negated (`skip = !p1better`: the path did not branch on it).
+		// In the second form the one path stands for both rows of the table: it is judged once for each value of the flag.
+		skipBase, skipNeg := c04StripNot(skip)
+		skipIsFlag := skipBase == ssa.Value(pb)
+		pbvs := []int{pbv}
+		if pbv == 0 && skipIsFlag {
+			pbvs = []int{1, -1}
 		}
-		gotSkip := 0
-		if IsConstBool(skip, true) {
-			gotSkip = 1
-		} else if IsConstBool(skip, false) {
-			gotSkip = -1
-		}
-		label := fmt.Sprintf("%s.step.%s.p1better=%d", s.name, kind, pbv)
-		ok := okChoice && a1 == wantA1 && a2 == wantA2 && wantSkip != 0 && gotSkip == wantSkip
-		ag := agg[label]
-		if ag == nil {
-			ag = &stepAgg{ok: true, pos: p.Pos(firstPos(ip)), good: fmt.Sprintf("%s: right gene chosen, cursors advance (%d,%d), skipped=%v", kind, a1, a2, gotSkip == 1)}
-			agg[label] = ag
-			order = append(order, label)
-		}
-		ag.n++
-		if !ok && ag.ok {
-			ag.ok = false
-			ag.bad = fmt.Sprintf("walk step for a %s gene with first-parent-fitter=%d (1 yes, -1 no, 0 not consulted): chosen gene ok=%v, cursor advance (%d,%d) expected (%d,%d), skip=%d expected %d (1 skip, -1 keep, 0 undetermined): unmatched genes must come from the fitter parent only, matched genes are always kept", kind, pbv, okChoice, a1, a2, wantA1, wantA2, gotSkip, wantSkip)
-			ag.wit = ip.Describe(p)
+		for _, pbv := range pbvs {
+			wantSkip := 0 // 1 true, -1 false
+			var okChoice bool
+			var wantA1, wantA2 int
+			switch kind {
+			case "excess2", "disjoint2":
+				okChoice = who == 2 && idx == ssa.Value(i2)
+				wantA1, wantA2 = 0, 1
+				wantSkip = pbv
+			case "excess1", "disjoint1":
+				okChoice = who == 1 && idx == ssa.Value(i1)
+				wantA1, wantA2 = 1, 0
+				wantSkip = -pbv
+			case "match":
+				okChoice = isAvg || (who == 1 && idx == ssa.Value(i1)) || (who == 2 && idx == ssa.Value(i2))
+				wantA1, wantA2 = 1, 1
+				wantSkip = -1
+			}
+			gotSkip := 0
+			switch {
+			case IsConstBool(skip, true):
+				gotSkip = 1
+			case IsConstBool(skip, false):
+				gotSkip = -1
+			case skipIsFlag && pbv != 0:
+				gotSkip = pbv
+				if skipNeg {
+					gotSkip = -pbv
+				}
+			}
+			label := fmt.Sprintf("%s.step.%s.p1better=%d", s.name, kind, pbv)
+			ok := okChoice && a1 == wantA1 && a2 == wantA2 && wantSkip != 0 && gotSkip == wantSkip
+			ag := agg[label]
+			if ag == nil {
+				ag = &stepAgg{ok: true, pos: p.Pos(firstPos(ip)), good: fmt.Sprintf("%s: right gene chosen, cursors advance (%d,%d), skipped=%v", kind, a1, a2, gotSkip == 1)}
+				agg[label] = ag
+				order = append(order, label)
+			}
+			ag.n++
+			if !ok && ag.ok {
+				ag.ok = false
+				ag.bad = fmt.Sprintf("walk step for a %s gene with first-parent-fitter=%d (1 yes, -1 no, 0 not consulted): chosen gene ok=%v, cursor advance (%d,%d) expected (%d,%d), skip=%d expected %d (1 skip, -1 keep, 0 undetermined): unmatched genes must come from the fitter parent only, matched genes are always kept", kind, pbv, okChoice, a1, a2, wantA1, wantA2, gotSkip, wantSkip)
+				ag.wit = ip.Describe(p)
+			}
 		}
 	}
 	for _, label := range order {
